@@ -399,7 +399,8 @@ class ClosestFamily(SimpleFamily):
                    'command names are free of ", " and " or " so that the enumeration in the message can be split']
 
     def mc_cfg(self, ctx):
-        maxl = 4 if ctx.tier == 'thorough' else 3
+        # thorough: 4 letters up to length 3 (85 strings, 614 k triples); length 4 over 4 letters would be 39 M triples
+        maxl = 3
         alpha = '{97, 98, 233, 19990}' if ctx.tier == 'thorough' else '{97, 98, 233}'
         cfg = ('SPECIFICATION Spec\nCONSTANTS\n  Defects = {}\n  Alpha = %s\n  MaxL = %d\n  Emit = TRUE\n'
                'INVARIANTS Metric Diagnosis EmitScn\nCHECK_DEADLOCK FALSE\n' % (alpha, maxl))
